@@ -390,15 +390,15 @@ def gen_step(c, module, cfg, name, simulate=None, workers=8, timeout=3000, seed_
     return jsonl, nb
 
 
-def replay_step(c, rt, module_args, jsonl, extra_args=(), parts=4, label="", what="implementation diverges from the specification"):
+def replay_step(c, rt, module_args, jsonl, extra_args=(), parts=4, label="", what="implementation diverges from the specification", mode="replay", keep=False):
     pieces = split_file(jsonl, parts, jsonl + ".part")
-    cmds = [[rt] + list(module_args) + ["replay", p] + list(extra_args) for p in pieces]
+    cmds = [[rt] + list(module_args) + [mode, p] + list(extra_args) for p in pieces]
     tb = ts = 0
     for (rc, summ, out), p in zip(run_parallel(cmds, timeout=3000), pieces):
         if rc != 0 or summ is None:
             # UB in the code under test can kill the child: find the behaviour that did it
             e2 = dict(os.environ); e2["VERIF_BISECT"] = "1"
-            pr = subprocess.run([rt] + list(module_args) + ["replay", p] + list(extra_args), capture_output=True, text=True, env=e2)
+            pr = subprocess.run([rt] + list(module_args) + [mode, p] + list(extra_args), capture_output=True, text=True, env=e2)
             idx = [int(l.split()[1]) for l in pr.stderr.splitlines() if l.startswith("BEH ")]
             beh = None
             if idx:
@@ -407,12 +407,12 @@ def replay_step(c, rt, module_args, jsonl, extra_args=(), parts=4, label="", wha
                         if i == idx[-1]:
                             beh = json.loads(l)
             c.violation("the real code crashed the replay child (rc=%s) %s on behaviour %s" % (rc, label, json.dumps(beh)[:600]),
-                        {"beh": beh, "adapter": list(module_args) + ["replay"] + list(extra_args), "crash_rc": rc})
+                        {"beh": beh, "adapter": list(module_args) + [mode] + list(extra_args), "crash_rc": rc})
             continue
         tb += summ["behaviours"]
         ts += summ["steps"]
         for f in summ["first_failures"][:1]:
-            f["adapter"] = list(module_args) + ["replay"] + list(extra_args)
+            f["adapter"] = list(module_args) + [mode] + list(extra_args)
             c.violation("%s %s at step %s: %s" % (what, label, f["step"], f["msg"]), f)
     for p in pieces:
         os.remove(p)
@@ -464,11 +464,13 @@ def replay_one(c, rt, module_args, path, trace_module=None, trace_cfg=None):
         tmp = os.path.join(workdir(c.prop.lower()), "one.jsonl")
         with open(tmp, "w") as f:
             f.write(json.dumps(rep["beh"]) + "\n")
-        args = rep.get("adapter", list(module_args))
-        cut = args.index("replay") if "replay" in args else None
+        args = rep.get("adapter", list(module_args) + ["replay"])
+        modes = [a for a in args if a in ("replay", "utf8")]
+        mode = modes[0] if modes else "replay"
+        cut = args.index(mode) if mode in args else None
         pre = args if cut is None else args[:cut]
         post = [] if cut is None else args[cut + 1:]
-        rc, summ, out = run_adapter([rt] + list(pre) + ["replay", tmp] + list(post))
+        rc, summ, out = run_adapter([rt] + list(pre) + [mode, tmp] + list(post))
         if rc != 0 or summ is None or summ["failures"]:
             c.violation("replayed behaviour still fails: %s" % (summ and summ["first_failures"]), None, replay_path=path)
     c.finish({"evaluations": 1, "distinct_nontrivial": 1})
